@@ -130,7 +130,8 @@ func isPeerNodeIP(peer1, peer2 k8s.Peer) bool {
 
 func isPodToItself(peer1, peer2 k8s.Peer) bool {
 	return peer1.PeerType() == k8s.PodType && peer2.PeerType() == k8s.PodType &&
-		peer1.GetPeerPod().Name == peer2.GetPeerPod().Name && peer1.GetPeerPod().Namespace == peer2.GetPeerPod().Namespace
+		peer1.GetPeerPod().Name == peer2.GetPeerPod().Name && peer1.GetPeerPod().Namespace == peer2.GetPeerPod().Namespace &&
+		peer1.GetPeerPod().FakePod == peer2.GetPeerPod().FakePod // a real pod may be named like a representative pod of its namespace
 }
 
 func (pe *PolicyEngine) getPeer(p string) (k8s.Peer, error) {
